@@ -130,3 +130,15 @@ func VerifC07ImportDiagnostics() {
 		rt.Assert(inside(s) && inside(t), "diagnostic range lies inside the text of the file it names")
 	}
 }
+
+// VerifC07CallSiteFlags: programs in which alias candidates are tried and passed over (among them
+// a generic function whose instantiation fails for the argument type): the module is marked
+// faulty exactly when an error diagnostic was delivered - a speculative trial leaves no trace.
+func VerifC07CallSiteFlags() {
+	vC09CallSites(2)
+	if !vC09LastRun.parsed {
+		return
+	}
+	rt.Assert(rt.Implies(vC09LastRun.delivered > 0, vC09LastRun.faulty), "a delivered error marks the module as faulty")
+	rt.Assert(rt.Implies(vC09LastRun.faulty, vC09LastRun.delivered > 0), "a module is faulty only if an error diagnostic was delivered (speculative trials leave no trace)")
+}
